@@ -279,22 +279,26 @@ def advanceEvacuationMark (h : HMap K V) (newbit : Nat) : HMap K V :=
       { h with nevacuate := n, old := none, sameSizeGrow := false, dead := (h.gen - 1, oa) :: h.dead }
     else { h with nevacuate := n }
 
+/-- the copy loop of `evacuate` (`if !evacuated(b) { … }`) for old bucket `oldbucket` of the old array `oa` -/
+def evacCopy (o : Ops K) (h : HMap K V) (oa : Array (Chain K V)) (oldbucket : Nat) : Except Err (HMap K V) :=
+  let newbit := h.noldbuckets
+  let b := oa.getD oldbucket []
+  if !evacuatedChain b then do
+    let x : Dst K V := { chain := h.buckets.getD oldbucket [] }
+    let y : Dst K V := { chain := h.buckets.getD (oldbucket + newbit) [] }
+    let (marked, x, y, h) ← evacCells o newbit b x y h
+    let nb := h.buckets.setIfInBounds oldbucket x.chain
+    let nb := if !h.sameSizeGrow then nb.setIfInBounds (oldbucket + newbit) y.chain else nb
+    pure { h with buckets := nb, old := some (oa.setIfInBounds oldbucket marked) }
+  else pure h
+
 /-- `evacuate(t, h, oldbucket)` -/
 def evacuate (o : Ops K) (h : HMap K V) (oldbucket : Nat) : Except Err (HMap K V) :=
   match h.old with
   | none => pure h
   | some oa => do
     let newbit := h.noldbuckets
-    let b := oa.getD oldbucket []
-    let h ←
-      if !evacuatedChain b then do
-        let x : Dst K V := { chain := h.buckets.getD oldbucket [] }
-        let y : Dst K V := { chain := h.buckets.getD (oldbucket + newbit) [] }
-        let (marked, x, y, h) ← evacCells o newbit b x y h
-        let nb := h.buckets.setIfInBounds oldbucket x.chain
-        let nb := if !h.sameSizeGrow then nb.setIfInBounds (oldbucket + newbit) y.chain else nb
-        pure { h with buckets := nb, old := some (oa.setIfInBounds oldbucket marked) }
-      else pure h
+    let h ← evacCopy o h oa oldbucket
     if oldbucket == h.nevacuate then pure (advanceEvacuationMark h newbit) else pure h
 
 /-- `growWork(t, h, bucket)` -/
@@ -366,16 +370,21 @@ def assignPass (o : Ops K) (h : HMap K V) (hash : UInt64) (k : K) (v : V) : Exce
   let h ← if h.growing then growWork o h (bucketIdx hash h.B) else pure h
   pure (assignCore o h hash k v)
 
+/-- the `again:` loop of mapassign.  The real loop is unbounded; a second pass is needed after `hashGrow`, and a
+    further one only if a single `growWork` completes the whole growth and the fresh table is over the threshold
+    again; the model gives up (`Err.loop`) after `fuel` passes. -/
+def assignLoop (o : Ops K) (hash : UInt64) (k : K) (v : V) : Nat → HMap K V → Except Err (HMap K V)
+  | 0, _ => .error .loop
+  | fuel + 1, h => do
+    match ← assignPass o h hash k v with
+    | .done h' => pure h'
+    | .again h' => assignLoop o hash k v fuel h'
+
 /-- `*mapassign(t, h, key) = v` on a non-nil map -/
 def mapassign (o : Ops K) (h : HMap K V) (k : K) (v : V) : Except Err (HMap K V) := do
   let (hash, h) ← hashKey o h.hash0 k h
   let h := if h.buckets.isEmpty then { h with buckets := #[freshBucket K V] } else h
-  match ← assignPass o h hash k v with
-  | .done h' => pure h'
-  | .again h =>
-    match ← assignPass o h hash k v with
-    | .done h' => pure h'
-    | .again _ => .error .loop
+  assignLoop o hash k v 8 h
 
 /-! ## mapdelete -/
 
@@ -420,6 +429,11 @@ def deleteCore (o : Ops K) (h : HMap K V) (hash : UInt64) (k : K) : HMap K V :=
       { h with hash0 := s }
     else h
 
+/-- mapdelete from `growWork` on -/
+def deletePass (o : Ops K) (h : HMap K V) (hash : UInt64) (k : K) : Except Err (HMap K V) := do
+  let h ← if h.growing then growWork o h (bucketIdx hash h.B) else pure h
+  pure (deleteCore o h hash k)
+
 /-- `mapdelete(t, h, key)` on a non-nil map -/
 def mapdelete (o : Ops K) (h : HMap K V) (k : K) : Except Err (HMap K V) :=
   if h.count == 0 then
@@ -429,8 +443,7 @@ def mapdelete (o : Ops K) (h : HMap K V) (k : K) : Except Err (HMap K V) :=
     else pure h
   else do
     let (hash, h) ← hashKey o h.hash0 k h
-    let h ← if h.growing then growWork o h (bucketIdx hash h.B) else pure h
-    pure (deleteCore o h hash k)
+    deletePass o h hash k
 
 /-! ## mapclear -/
 
